@@ -552,10 +552,12 @@ class IMAPClient:
                         )
                         self.ibuffer = []
                         self.ibuffer_size = 0
-                        # Drain the line terminator that follows the
-                        # literal declaration so we stay in sync.
+                        # NOTE: The line terminator that follows the literal
+                        #       declaration was already read above. A client
+                        #       does not send a synchronizing literal without
+                        #       our go-ahead, so what it sends next is its
+                        #       next command.
                         #
-                        await self.reader.readuntil(self.LINE_TERMINATOR)
                         continue
 
                     # If this is a synchronizing string literal (does not have
